@@ -481,6 +481,32 @@ Definition guard_code (c : cfg) (tk : task) : option err :=
   else if negb (g_enum g) then Some (ECode 207)
   else None.
 
+(* exit class when a guard stops the invocation: if no command failed and Run reports an error, it is
+   the typed error of a guard that some task of the program can fail (206 required variable,
+   207 enum, 205 prompt, the precondition failure), the call-limit error 204, the pre-check
+   error 202 for an internal task named on the command line, or a task-run error (201) wrapping one
+   of them when the guarded task was reached through a task: call of a root task.  "context
+   canceled" can only surface through a skipped caller of a shared execution that somebody else's
+   guard failure cancelled. *)
+Definition guard_err_possible (p : prog) (c : cfg) (tr : list event) (e : err) : bool :=
+  match e with
+  | ECode 206 => existsb (fun tk => negb (g_required (t_g tk))) p
+  | ECode 207 => existsb (fun tk => negb (g_enum (t_g tk))) p
+  | ECode 205 => existsb (fun tk => g_prompt (t_g tk)) p && negb (cf_yes c)
+  | EPrecond => existsb (fun tk => match g_precond (t_g tk) with Some false => true | _ => false end) p
+  | ECode 204 => callcount_possible p c
+  | ECode 202 => existsb t_internal p
+  | ETaskRun None => negb (no_guard_errors p c) || callcount_possible p c
+  | ECancel => existsb (fun ev => match ev with EvSkipping _ _ => true | _ => false end) tr
+  | _ => false
+  end.
+
+Definition mon_C13_status (p : prog) (c : cfg) (tr : list event) (r : res) : bool :=
+  match failing_ends p c tr, r with
+  | [], RErr e => guard_err_possible p c tr e
+  | _, _ => true
+  end.
+
 (* ------------------------------------------------------------------ *)
 (* C14: deferred entries run exactly once, in reverse order, after the  *)
 (* last command; checked at the end of the trace per activation         *)
